@@ -151,12 +151,12 @@ PROPS = {
         "level_note": "Verus units: base gates, boolean/select, range, truncation, logic (all widths). Ring/trace units (sequence of composer "
                       "operations, every value-dependent branch path-split and shown to produce the same sequence; dependency "
                       "preconditions such as Z != 0 before JubJubAffine::from must be established on every path): all point gadgets incl. "
-                      "the 252-round component_mul_point and the 256-round fixed-base gadget. component_decomposition is used by assumed contract. "
+                      "the 252-round component_mul_point and the 256-round fixed-base gadget, component_decomposition for N in {1,2,8,252,256}. "
                       "Precondition of every component: witness arguments were allocated by this composer (valid_w).",
         "design_ref": "DESIGN.md §4 C07",
         "assumptions": A_VERUS + ["CANON model of BlsScalar", "cut_le_bits (BitIterator8) contract", "Runtime::event cuts have no effect on the views"],
         "trusted": T_VERUS + T_RING,
-        "not_covered": ["component_decomposition body (fold with &mut-capturing closure)", "Compiler::compile (default instance) vs Composer::prove pairing"],
+        "not_covered": ["component_decomposition for N outside {1,2,8,252,256}", "Compiler::compile (default instance) vs Composer::prove pairing"],
     },
     "C08": {
         "v_units": ["composer_base.py", "composer_bits_select.py", "gadget_lemmas.py"],
@@ -218,19 +218,22 @@ PROPS = {
     },
     "C11": {
         "v_units": ["truncate.py"],
+        "r": [("gadgets", lambda n: n.startswith("bits.component_decomposition"))],
         "claim": "layout of truncation for EVERY width N <= 254: component_truncate::<N> emits exactly trunc_rows(N) = range check of the "
                  "low part on N bits, then bind_truncation_split (range check of the high part on 255-N bits, recomposition row "
                  "2^N*high + low, closing equality with the input) and assert_canonical_truncation (diff = r_high - high range-checked, "
                  "is-zero gadget inverse/product/is_top, diff*is_top = 0, guard = is_top*(r_low - low) range-checked on N bits) with "
                  "r_high, r_low the split of r-1 at bit N (as bit sums of to_bits(-1)); returned witness = the low part; recompose_bits "
-                 "== little-endian bit sum mod r (loop invariant).",
+                 "== little-endian bit sum mod r (loop invariant); component_decomposition::<N> for the INSTANCES N in {1,2,8,252,256} "
+                 "(composer-operation trace: N boolean bit witnesses, running sum with coefficient 2^i, closing equality, bits returned "
+                 "little-endian; `assert!(0 < N && N <= 256)` holds).",
         "technique": "contract-based deductive verification: Verus on the real functions annotated in place (overlay)",
-        "level_note": "NOT covered: component_decomposition (fold with &mut-capturing closure; not yet under contract), honest witness values, "
-                      "the canonical-split lemma (rows satisfiable <=> low == cv(x) mod 2^N).",
+        "level_note": "component_decomposition is decided per instance N (listed), not for all N: the fold over a const-generic array is unrolled "
+                      "by the trace checker. NOT covered: honest witness values of truncation, the canonical-split lemma.",
         "design_ref": "DESIGN.md §4 C11",
         "assumptions": A_VERUS + ["CANON model", "BlsScalar::{to_bits, pow_of_2, invert} contracts", "cut_le_bits"],
         "trusted": T_VERUS,
-        "not_covered": ["component_decomposition", "semantic lemma for truncation"],
+        "not_covered": ["component_decomposition for N outside {1,2,8,252,256}", "semantic lemma for truncation / decomposition"],
     },
     "C12": {
         "r": [("widgets", lambda n: n.startswith("curve_addition.")), ("gadgets", lambda n: n.startswith("point."))],
